@@ -63,9 +63,6 @@ theorem errPass_refines {s a} (h : R s a) (e : Err) : R (s.errPass e) (a.errPass
     have ha := h.alive herr
     destruct_R h
     constructor <;> simp_all <;> (try assumption) <;> (try omega)
-    intro bl bp x y hxy h1 h2
-    have := hbufV x y hxy
-    omega
 
 /-- everything in the decode branch after the `decodeRune:` loop -/
 def decodeTail (w : Nat) (a : LSt) : LSt :=
@@ -81,7 +78,7 @@ def decodeTail (w : Nat) (a : LSt) : LSt :=
 
 theorem runeDecode_eq (a : LSt) :
     LSt.runeDecode a = decodeTail (decodeRune a.rest).2 (decodeSpec a) := by
-  unfold LSt.runeDecode decodeTail decodeSpec needMore
+  unfold LSt.runeDecode decodeTail decodeSpec
   rcases hd : decodeRune a.rest with ⟨r, w⟩
   simp only
 
@@ -98,12 +95,9 @@ theorem runeDecode_eq (a : LSt) :
 @[simp] theorem litPush_rest (a : LSt) (bs : List Byte) : (a.litPush bs).rest = a.rest := by
   unfold LSt.litPush; split <;> rfl
 
-@[simp] theorem decodeSpec_err (a : LSt) : (decodeSpec a).err = a.err := by
-  unfold decodeSpec; split <;> simp
-@[simp] theorem decodeSpec_behind (a : LSt) : (decodeSpec a).behind = a.behind := by
-  unfold decodeSpec; split <;> simp
-@[simp] theorem decodeSpec_rest (a : LSt) : (decodeSpec a).rest = a.rest := by
-  unfold decodeSpec; split <;> simp
+@[simp] theorem decodeSpec_err (a : LSt) : (decodeSpec a).err = a.err := rfl
+@[simp] theorem decodeSpec_behind (a : LSt) : (decodeSpec a).behind = a.behind := rfl
+@[simp] theorem decodeSpec_rest (a : LSt) : (decodeSpec a).rest = a.rest := rfl
 
 theorem nextPos_eq {s a} (h : R s a) (hal : a.err = none) : s.nextPos = a.nextPos := by
   unfold St.nextPos LSt.nextPos
@@ -132,11 +126,12 @@ theorem fin_refines {s a} (w : Nat) (h : R s a) (hal : a.err = none) : R (stFin 
   · exact (errPass_refines h _).setW w
   · exact h.setW w
 
-theorem runeDecode_refines {s a b f} (h : R s a) (hb : a.behind = none) (hf : s.front = b :: f) :
+theorem runeDecode_refines {s a b f} (h : R s a) (hb : a.behind = none) (hf : s.front = b :: f)
+    (hh : a.halted = false) :
     ∃ s', St.runeDecode s = .ok s' ∧ R s' (LSt.runeDecode a) := by
   obtain ⟨hal, hrest⟩ := h.head hf
-  have hr := h.r_ne_of_front hf
-  obtain ⟨s1, h1, hR1, hw⟩ := decodeLoop_refines 4 h hal hb (by simp [hf]) hr (by simp [hf]) (by omega)
+  have hr := h.r_ne_of_front hf hh
+  obtain ⟨s1, h1, hR1, hw⟩ := decodeLoop_refines 4 h hal hb hh (by simp [hf]) hr (by simp [hf]) (by omega)
   have hw1 : 1 ≤ (decodeRune a.rest).2 := (decode_width a.rest (by simp [hrest])).1
   rw [runeDecode_eq]
   unfold St.runeDecode
